@@ -36,7 +36,7 @@ except BaseException as e:
     print(json.dumps({"import_error": type(e).__name__ + ": " + str(e)[:300]})); raise SystemExit(0)
 decl = json.loads(sys.argv[1])
 for sub, name in decl:
-    modname = "eolib.protocol." + sub
+    modname = "eolib.protocol" + ("." + sub if sub else "")
     try:
         importlib.import_module(modname)
     except BaseException as e:
